@@ -206,3 +206,44 @@ def attach_rexcoverage():
     old = rexpy.matrices2incremental_coverage
     rexpy.matrices2incremental_coverage = g
     _patch_aliases(old, g)
+
+
+# ---------------------------------------------------------------------------
+# text comparison (C04/C15): oracle as a post-condition of the real check_strings
+# ---------------------------------------------------------------------------
+TEXT_LOG = []       # one record per check_strings call (drained by the check)
+
+
+def attach_textcmp():
+    if 'textcmp' in _attached:
+        return
+    _attached.add('textcmp')
+    from tdda.referencetest import checkfiles
+    from vt.oracles import textcmp
+
+    def snap_inputs(actual, expected):
+        return (list(actual), list(expected))
+
+    def verdict_matches_documented_rule(self, actual, expected, lstrip, rstrip, ignore_substrings,
+                                        ignore_patterns, remove_lines, preprocess, max_permutation_cases,
+                                        result, OLD):
+        EVALS['check_strings'] += 1
+        a0, e0 = OLD.inputs
+        opts = dict(lstrip=lstrip, rstrip=rstrip, ignore_substrings=ignore_substrings,
+                    ignore_patterns=ignore_patterns, remove_lines=remove_lines,
+                    preprocess_fn=preprocess, max_permutation_cases=max_permutation_cases)
+        try:
+            v, info = textcmp.verdict(a0, e0, opts)
+        except Exception as ex:           # oracle trouble is never a verdict
+            v, info = 'unspecified', {'why': 'oracle error %r' % ex}
+        got = 'pass' if result.failures == 0 else 'fail'
+        rec = {'oracle': v, 'got': got, 'info': info, 'actual': a0, 'expected': e0}
+        TEXT_LOG.append(rec)
+        if v != 'unspecified' and v != got:
+            return broken('check_strings', oracle=v, got=got, info=info, actual=a0[:12], expected=e0[:12])
+        return True
+
+    f = checkfiles.FilesComparison.check_strings
+    g = icontract.ensure(verdict_matches_documented_rule, error=ContractBroken)(f)
+    g = icontract.snapshot(snap_inputs, name='inputs')(g)
+    checkfiles.FilesComparison.check_strings = g
